@@ -48,6 +48,12 @@ def _ubi(rng, two_pi=False):
     return np.linalg.inv(U.dot(tools.form_b_mat(cell) / (2 * math.pi))).tolist()
 
 
+def _amat(rng):
+    """upper triangular with positive diagonal, as form_a_mat / form_b_mat return (entries of order 1..10 so that rounding to integers keeps it valid most of the time)"""
+    a = [[rng.uniform(2, 9), rng.uniform(-3, 3), rng.uniform(-3, 3)], [0.0, rng.uniform(2, 9), rng.uniform(-3, 3)], [0.0, 0.0, rng.uniform(2, 9)]]
+    return a
+
+
 def _eps(rng):
     return [rng.uniform(-0.1, 0.1) for _ in range(6)]
 
@@ -99,9 +105,9 @@ ELEMENTS = ['H', 'C', 'N', 'O', 'S', 'FE', 'CU', 'AG', 'AU', 'CL', 'NA', 'U', 'S
 ENTRIES = {
     'C01': both('sintl', lambda r: [_cell(r), _hkl(r)]) + both('form_b_mat', lambda r: [_cell(r)]) + both('form_a_mat', lambda r: [_cell(r)])
            + both('cell_invert', lambda r: [_cell(r)]) + both('cell_volume', lambda r: [_cell(r)]) + both('tth', lambda r: [_cell(r), _hkl(r), r.uniform(0.1, 1.5)])
-           + both('form_a_mat_inv', lambda r: [_cell(r)]),
+           + both('form_a_mat_inv', lambda r: [_cell(r)]) + both('a_to_cell', lambda r: [_amat(r)]) + both('b_to_cell', lambda r: [_amat(r)]),
     'C02': both('u_to_ubi', lambda r: [_U(r), _cell(r)], near=near_rot({0})) + both('ubi_to_u', lambda r: [_ubi(r)]) + both('ubi_to_cell', lambda r: [_ubi(r)])
-           + both('ubi_to_u_b', lambda r: [_ubi(r)]) + both('ub_to_u_b', lambda r: [np.linalg.inv(np.array(_ubi(r))).tolist()]),
+           + both('ubi_to_u_b', lambda r: [_ubi(r)]) + both('ubi_to_rod', lambda r: [_ubi(r)]) + both('ub_to_u_b', lambda r: [np.linalg.inv(np.array(_ubi(r))).tolist()]),
     'C03': both('form_omega_mat_general', lambda r: [r.uniform(-7, 7), r.uniform(-1, 1) * r.choice([1, 1e-3, 1e-8]), r.uniform(-1, 1) * r.choice([1, 1e-3, 1e-8])])
            + both('form_omega_mat', lambda r: [r.uniform(-7, 7)]) + both('euler_to_u', lambda r: [r.uniform(0, 2 * math.pi), r.uniform(0, 2 * math.pi), r.uniform(0, 2 * math.pi)])
            + both('u_to_euler', lambda r: [_U(r)], near=near_rot({0})) + both('rod_to_u', lambda r: [[r.gauss(0, 1) for _ in range(3)]]) + both('u_to_rod', lambda r: [_U(r)], near=near_rot({0}))
